@@ -263,10 +263,21 @@ class ResourceManager:
             else:
                 assert False # :nocov:
 
-        value = resolve(resource,
-            *merge_options(resource, dir, xdr),
-            path=(f"{resource.name}_{resource.number}",),
-            attrs=resource.attrs)
+        # A request that fails partway through (e.g. because a physical pin is already in use)
+        # must leave the set of allocated pins, inserted buffers, and clock constraints unchanged.
+        phys_reqd = OrderedDict(self._phys_reqd)
+        pins      = list(self._pins)
+        io_clocks = dict(self._io_clocks)
+        try:
+            value = resolve(resource,
+                *merge_options(resource, dir, xdr),
+                path=(f"{resource.name}_{resource.number}",),
+                attrs=resource.attrs)
+        except Exception:
+            self._phys_reqd = phys_reqd
+            self._pins      = pins
+            self._io_clocks = io_clocks
+            raise
         self._requested[resource.name, resource.number] = value
         return value
 
